@@ -1925,7 +1925,7 @@ def run(ctx):
                     n_huge[0] += 1
                 else:
                     size_jobs.append(("fill" if n_size[0] % 2 else "block", None))
-            if nonempty and (ename != "emit-match" or idx % 27 == 4):
+            if nonempty and (ename in ("emit-match-3", "emit-match-a") or idx % 27 == 4):
                 # the NUMBER of patterns of the list is a dimension of its own: every single-pattern case (and a sample of
                 # the two-pattern ones) is also asked as part of a list of few (2..15) and of many (16..65) patterns
                 size_jobs += [("fill", rng.choice(sz.COUNTS_FEW)), ("fill", rng.choice(sz.COUNTS_MANY))]
